@@ -144,6 +144,25 @@ pub fn j_counter_read(k: usize, ts: TimeScale, c: i128, leap: &LeapTable, out: &
             } else if !inside && res.is_ok() {
                 out.viol("c20.counter_read", format!("wrong-number-instead-of-error,{}", if g < 0 { "negative" } else { "beyond-one-century" }), args, "Err".into(), format!("{res:?}"));
             } else {
+                // the {:o} form is documented as the GPS counter of the epoch: the number where there is one, a
+                // formatting error - not a panic, not a wrong number - where there is none
+                if k == 0 {
+                    use std::fmt::Write;
+                    let mut text = String::new();
+                    match guard(|| write!(text, "{e:o}").map(|_| ())) {
+                        Ok(w) => {
+                            let ok = if inside { w.is_ok() && text == (g as u64).to_string() } else { w.is_err() };
+                            if !ok {
+                                out.viol("c20.counter_read", format!("octal-format,{}", if inside { "wrong-text" } else { "no-error-outside-domain" }), args, if inside { g.to_string() } else { "fmt::Error".into() }, format!("{w:?} {text:?}"));
+                                return;
+                            }
+                        }
+                        Err(p) => {
+                            out.viol("c20.counter_read", format!("octal-format,panic:{},{}", p.class(), if g < 0 { "negative" } else if inside { "inside" } else { "beyond-one-century" }), args, if inside { g.to_string() } else { "fmt::Error".into() }, format!("{} {}", p.loc, p.msg));
+                            return;
+                        }
+                    }
+                }
                 out.ok(1, !inside, k as u64 | (inside as u64) << 3 | ((g < 0) as u64) << 4);
                 if out.want_sample(!inside) {
                     out.sample("c20.counter_read", args, format!("{res:?}"), !inside);
